@@ -10,8 +10,14 @@ Dynamic side: (i) model vs implementation on the same inputs (`tagname`, `pathta
                    the enumerated paths "same first segment <=> same tag name";
               (iii) verdict as in c08.judge."""
 import json
+import os
+import random
 
 from .. import common as C
+from .. import corecheck as K
+from .. import proj as P
+from .. import scancheck as S
+from .. import skeleton as SK
 
 # '_' '%' '/' '.' ' ' '2' '5' 'a' and the two bytes of 'é'
 TITLE_ALPHABET = bytes([0x5F, 0x25, 0x2F, 0x2E, 0x20, 0x32, 0x35, 0x61, 0xC3, 0xA9])
@@ -103,7 +109,8 @@ def check_titles(acc, res, titles, keep_groups=True):
 
 
 def run(res, tier, seed, replay):
-    pr = C.prepare("C19", res, need_gens=("tagname",))
+    os.environ.setdefault("VERIF_HARNESS", os.path.join(C.TOOLS, "harness"))
+    pr = C.prepare("C19", res, need_gens=("tagname", "tables", "scanner", "typing"))
     res.coverage["rule"] = (
         "titles: '/'+s for every byte string s over {_ % / . space 2 5 a 0xC3 0xA9} up to the length bound "
         "(exhaustive; titles whose s contains '/' only take part in the model/implementation comparison), plus "
@@ -219,7 +226,224 @@ def run(res, tier, seed, replay):
         "titles": n_titles, "titles_of_the_shape_slash_segment": n_auto, "title_max_segment_len": tmax,
         "distinct_names_of_those": len(acc.by_name), "paths": len(paths), "path_max_len": pmax, "path_classes": dist}
 
+    if rp is None or "project" in rp:
+        catalog_part(res, acc, random.Random(seed), tier == "quick", rp)
+
     judge(res, pr, acc.corr_bad, acc.spec_bad)
+
+
+# ---------------------------------------------------------------------------------------------
+# catalog level: which tags an interaction carries (theorems every_interaction_tagged, explicit_tags_win,
+# undeclared_tag_rejected, declared_title, declared_tag_captures_automatic of props/C19.v)
+
+KNOWN_UNDECLARED = "C19/tags-may-name-an-automatic-tag"
+HTTP_KINDS = {8: "GET", 9: "POST", 10: "PUT", 11: "PATCH", 12: "DELETE"}
+EXAMPLES = [
+    ("declared-captures-automatic", b"JSIGHT 0.3\nTAG @x // My X\nGET /x\n  200 any\n"),
+    ("undeclared-automatic", b"JSIGHT 0.3\nGET /x\n  200 any\nGET /y\n  Tags @x\n  200 any\n"),
+    ("undeclared-automatic-swapped", b"JSIGHT 0.3\nGET /y\n  Tags @x\n  200 any\nGET /x\n  200 any\n"),
+]
+TAG_PATHS = [b"/x", b"/x/y", b"/y", b'"/x y"', b"/x_", b"/", b"/./x", b"//x", b"/X", "/é".encode(), b"/x\xff", b"/{id}/x"]
+TAG_NAMES = [b"@x", b"@y", b"@x_20y", b"@_", b"@X", b"@t", b"@x__"]
+
+
+def tag_documents(rng, quick):
+    docs = list(EXAMPLES)
+    J = b"JSIGHT 0.3\n"
+    n = 700 if quick else 12000
+    for _ in range(n):
+        lines = [J]
+        decl = rng.sample(TAG_NAMES, rng.randint(0, 4))
+        for t in decl:
+            ann = rng.choice([b"", b" // Title", b' // "q"', " // é".encode(), b" // a\xff"])
+            lines.append(b"TAG " + t + ann + b"\n")
+        used = set()
+        for _ in range(rng.randint(1, 4)):
+            p = rng.choice(TAG_PATHS)
+            form = rng.randint(0, 3)
+            pool = decl if (decl and rng.random() < 0.8) else TAG_NAMES
+            tags = b"Tags " + b" ".join(rng.sample(pool, min(len(pool), rng.randint(1, 2)))) + b"\n"
+            m = rng.choice([b"GET", b"POST", b"PUT"])
+            if (m, p) in used:
+                continue
+            used.add((m, p))
+            if form == 0:
+                lines.append(m + b" " + p + b"\n" + (b"  " + tags if rng.random() < 0.4 else b"") + b"  200 any\n")
+            elif form == 1:
+                lines.append(b"URL " + p + b"\n" + (b"  " + tags if rng.random() < 0.5 else b"") + b"  " + m + b"\n" +
+                             (b"    " + tags if rng.random() < 0.3 else b"") + b"    200 any\n")
+                used.update((x, p) for x in (b"GET", b"POST", b"PUT"))
+            elif form == 2:
+                lines.append(b"URL " + p + b"\n  Protocol json-rpc-2.0\n  Method m" + (b"\n    " + tags if rng.random() < 0.5 else b"\n") +
+                             b"  Method n\n")
+                used.update((x, p) for x in (b"GET", b"POST", b"PUT"))
+            else:
+                lines.append(b"URL " + p + b"\n" + (b"  " + tags if rng.random() < 0.5 else b"") + b"  " + m + b" " + p + b"/sub\n    200 any\n")
+                used.update((x, p) for x in (b"GET", b"POST", b"PUT"))
+        docs.append(("random", b"".join(lines)))
+    return docs
+
+
+def np_of(d):
+    out = {}
+    for kv in d["np"].split(","):
+        if kv:
+            a, _, b = kv.partition(":")
+            out[C.unhx(a)] = C.unhx(b)
+    return out
+
+
+def ups_of(d):
+    return [C.unhx(x) for x in d["up"].split(",") if x]
+
+
+def py_interactions(forest):
+    """independent reading of the forest: [(id bytes, path, explicit tag list or None, has_tags_directive)]"""
+    out = []
+
+    def path_of(d, anc):
+        for x in [d] + anc:
+            n = np_of(x)
+            if x["kind"] == 7:
+                return n.get(b"Path", b"")
+            if x["kind"] in HTTP_KINDS and n.get(b"Path", b"") != b"":
+                return n[b"Path"]
+        return None
+
+    def tags_child(d):
+        for k in d["kids"]:
+            if k["kind"] == 29:
+                return ups_of(k)
+        return None
+
+    def walk(d, anc):
+        if d["kind"] == 21:
+            return
+        if d["kind"] in HTTP_KINDS or d["kind"] == 25:
+            p = path_of(d, anc)
+            if d["kind"] == 25:
+                ident = b"json-rpc-2.0 " + np_of(d).get(b"MethodName", b"") + b" " + (p or b"")
+            else:
+                ident = b"http " + HTTP_KINDS[d["kind"]].encode() + b" " + (p or b"")
+            explicit = tags_child(d)
+            if explicit is None and anc and anc[0]["kind"] == 7:
+                explicit = tags_child(anc[0])
+            out.append((ident, p, explicit))
+        for k in d["kids"]:
+            walk(k, [d] + anc)
+
+    for t in forest:
+        walk(t, [])
+    return out
+
+
+def catalog_part(res, acc, rng, quick, rp):
+    from .c09 import go_coerce, project_of
+    if rp is not None:
+        projects = [("replay", [(C.unhx(n).decode("latin1"), C.unhx(c)) for n, c in rp["project"]])]
+    else:
+        projects = [("fixture:" + os.path.relpath(f, C.REPO), project_of(f)) for f in S.fixture_files()]
+        projects += [("tags:" + cls, [("a.jst", d)]) for cls, d in tag_documents(rng, quick)]
+    outs = C.run_sharded("harness", "fn", [P.run_line("out=json", pj) for _, pj in projects])
+    trees = C.run_sharded("harness", "fn", [P.run_line("stage=expand", pj) for _, pj in projects])
+    res.count(len(projects))
+    known_ids = {f.get("id") for f in C.load_known().get("findings", []) if f.get("property") == "C19"}
+    dist = {"projects": len(projects), "accepted": 0, "interactions": 0, "with_own_or_url_Tags": 0, "automatic": 0,
+            "declared_tags": 0, "captured_by_declared_tag": 0, "undeclared_but_automatic": 0, "skipped_repeated_keys": 0,
+            "rejected_tag_not_found": 0}
+    undeclared = []
+
+    def bad(k, what, detail):
+        origin, pj = projects[k]
+        acc.spec_bad.append(("tags (%s): %s [%s]" % (what, detail, origin),
+                             {"project": [(C.hx(n), C.hx(c)) for n, c in pj], "clause": what, "theorem": "props/C19.v catalog level"}))
+
+    for k, (o, tr) in enumerate(zip(outs, trees)):
+        st, d = P.parse(o)
+        if st == "err" and b"tag not found" in C.unhx(d.get("msg", "-")):
+            dist["rejected_tag_not_found"] += 1
+        stt, dt = P.parse(tr)
+        if st != "ok" or stt != "ok":
+            continue
+        dist["accepted"] += 1
+        v, dups = SK.parse_pairs(C.unhx(d["json"]).decode("utf-8", "replace"))
+        inters = SK.get(v, "interactions", []) or []
+        tags = SK.get(v, "tags", []) or []
+        if len({kk for kk, _ in inters}) != len(inters):
+            dist["skipped_repeated_keys"] += 1       # C09's known classes: ids are ambiguous as strings
+            continue
+        forest = K.parse_forest(dt["tree"])
+        declared = {}
+        for t in forest:
+            if t["kind"] == 28:
+                declared[go_coerce(np_of(t).get(b"TagName", b""))] = go_coerce(C.unhx(t["ann"]))
+        dist["declared_tags"] += len(declared)
+        # declared titles
+        for n, ann in declared.items():
+            t = SK.get(tags, n)
+            if t is None:
+                bad(k, "a declared tag exists", "TAG %r is not in the catalog" % n)
+            elif SK.get(t, "title") != (ann if ann != "" else n):
+                bad(k, "a declared tag's title is its annotation or its name", "tag %r: title %r, annotation %r" % (n, SK.get(t, "title"), ann))
+        expected = py_interactions(forest)
+        if len(expected) != len(inters):
+            bad(k, "one interaction per method directive", "%d method directives, %d interactions" % (len(expected), len(inters)))
+            continue
+        auto_of_seg = {}
+        for ident, path, explicit in expected:
+            key = go_coerce(ident)
+            i = SK.get(inters, key)
+            dist["interactions"] += 1
+            if i is None:
+                bad(k, "interaction of a method directive", "no interaction %r" % key)
+                continue
+            got = SK.get(i, "tags", []) or []
+            if not got:
+                bad(k, "every interaction carries at least one tag", "interaction %r has none" % key)
+                continue
+            res.nontrivial(("tags", key, tuple(got), o[:40]))
+            if explicit is not None:
+                dist["with_own_or_url_Tags"] += 1
+                want = [go_coerce(x) for x in explicit]
+                if got != want:
+                    bad(k, "an interaction with a Tags directive carries exactly those tags", "%r: has %r, Tags says %r" % (key, got, want))
+                for n in want:
+                    if n not in declared:
+                        undeclared.append((k, key, n))
+                        dist["undeclared_but_automatic"] += 1
+            else:
+                dist["automatic"] += 1
+                if len(got) != 1:
+                    bad(k, "otherwise the single automatic tag", "%r has %r" % (key, got))
+                    continue
+                t = SK.get(tags, got[0])
+                title = go_coerce(py_title(path or b""))
+                if t is None:
+                    bad(k, "the automatic tag exists", "%r names %r" % (key, got[0]))
+                elif got[0] in declared:
+                    dist["captured_by_declared_tag"] += 1     # recorded observation (declared_tag_captures_automatic)
+                elif SK.get(t, "title") != title:
+                    bad(k, "the automatic tag is the tag of the path's first segment", "%r: tag %r titled %r, first segment gives %r" % (key, got[0], SK.get(t, "title"), title))
+                seg = py_first_segment(path or b"")
+                if seg in auto_of_seg and auto_of_seg[seg] != got[0]:
+                    bad(k, "interactions with the same first segment share the tag", "segment %r: %r and %r" % (seg, auto_of_seg[seg], got[0]))
+                auto_of_seg.setdefault(seg, got[0])
+        names = list(auto_of_seg.values())
+        if len(set(names)) != len(names):
+            bad(k, "different first segments get different tag names", "%r" % (auto_of_seg,))
+    res.notes["catalog_level"] = dist
+    if undeclared:
+        k, key, n = min(undeclared, key=lambda u: len(projects[u[0]][1][0][1]))
+        root = projects[k][1][0][1]
+        msg = ("id=%s class=undeclared-automatic theorem=undeclared_tag_accepted_refuted documents=%d smallest: %r is accepted although "
+               "no TAG directive declares %r named by the Tags directive of %r" % (KNOWN_UNDECLARED, len({u[0] for u in undeclared}), root, n, key))
+        if KNOWN_UNDECLARED in known_ids:
+            res.known.append(msg)
+        else:
+            origin, pj = projects[k]
+            acc.spec_bad.append(("each tag of a Tags directive must be declared by a TAG directive or the document is rejected: " + msg,
+                                 {"project": [(C.hx(a), C.hx(c)) for a, c in pj], "class": "undeclared-automatic",
+                                  "theorem": "undeclared_tag_accepted_refuted"}))
 
 
 def judge(res, pr, corr_bad, spec_bad):
